@@ -82,6 +82,15 @@ impl SharedHistory {
                 delta.withdraw_len(),
             );
             history.push_delta(delta);
+            // The data has changed. Move the creation time past the second
+            // of the Last-Modified time handed out so far, so that a
+            // conditional request carrying it is not answered with 304
+            // before mark_update_done sets the new creation time.
+            if let Some(created) = history.created {
+                history.created = Some(
+                    created + chrono::Duration::try_seconds(1).unwrap()
+                );
+            }
             true
         }
         else if current.is_none() {
